@@ -560,11 +560,36 @@ K("_test_mutual_information_fast", "timeseries", lang="c", props=("C20", "C10"),
   checks=("bounds", "narrow"),
   modifies=["symbolic_original", "symbolic_surrogates", "hist_original", "hist_surrogates", "hist2d", "mi"])
 
-K("_vertex_current_flow_betweenness_fast", "core", lang="c", props=("C20", "C18"),
+# functional specification (C18 "equal the direct evaluation of their defining sums"): the value returned for node i is
+#   sum_{t<N} sum_{s<t, s!=i, t!=i}  2/(N(N-1)) * sum_{j<N} Y[i,j] * |Is (R[i,s]-R[j,s]) + It (R[j,t]-R[i,t])| / 2
+# written with ghost partial sums in the order the code accumulates them (UF float mode: exactly these operations)
+_VJ = "admittance[i*N+j]*fabs(Is*(R[i*N+s]-R[j*N+s])+It*(R[j*N+t]-R[i*N+t]))/2.0"
+K("_vertex_current_flow_betweenness_fast", "core", lang="c", props=("C20", "C18"), float_mode="UF",
   requires=["N>=0", "0<=i and i<N", "extent(admittance)==N*N", "extent(R)==N*N", "N*N" + _FIT],
+  ghost={"JJ": ("int", "int", "int", "float"), "VS": ("int", "int", "float"), "VT": ("int", "float")},
+  defs=["all(JJ(t,s,0)==0.0 for t in range(N) for s in range(t))",
+        "all(JJ(t,s,j+1)==JJ(t,s,j)+" + _VJ + " for t in range(N) for s in range(t) for j in range(N))",
+        "VT(0)==0.0",
+        "all(VS(t,0)==VT(t) for t in range(N))",
+        "all(VS(t,s+1)==ite(i==t or i==s, VS(t,s), VS(t,s)+2.0*JJ(t,s,N)/(N*(N-1))) for t in range(N) for s in range(t))",
+        "all(VT(t+1)==VS(t,t) for t in range(N))"],
+  ensures=["result==VT(N)"],
+  loops={"t": ["VCFB==VT(t)"], "t.s": ["VCFB==VS(t,s)"], "t.s.j": ["J==JJ(t,s,j)", "VCFB==VS(t,s)", "i!=t and i!=s"]},
   checks=("bounds", "overflow"))
-K("_edge_current_flow_betweenness_fast", "core", lang="c", props=("C20", "C18"),
+# edge current flow betweenness: ECFB[i,j] += (float) 2/(N(N-1)) * sum_{t<N} sum_{s<t} Y[i,j] |Is (R[i,s]-R[j,s]) + It (R[j,t]-R[i,t])|
+_EJ = "admittance[i*N+j]*fabs(Is*(R[i*N+s]-R[j*N+s])+It*(R[j*N+t]-R[i*N+t]))"
+K("_edge_current_flow_betweenness_fast", "core", lang="c", props=("C20", "C18"), float_mode="UF",
   requires=["N>=0", "extent(admittance)==N*N", "extent(R)==N*N", "extent(ECFB)==N*N", "N*N" + _FIT],
+  ghost={"ES": ("int", "int", "int", "int", "float"), "ET": ("int", "int", "int", "float")},
+  defs=["all(ET(i,j,0)==0.0 for i in range(N) for j in range(N))",
+        "all(ES(i,j,t,0)==ET(i,j,t) for i in range(N) for j in range(N) for t in range(N))",
+        "all(ES(i,j,t,s+1)==ES(i,j,t,s)+" + _EJ + " for i in range(N) for j in range(N) for t in range(N) for s in range(t))",
+        "all(ET(i,j,t+1)==ES(i,j,t,t) for i in range(N) for j in range(N) for t in range(N))"],
+  # per-store statement: the quantity added to element (i,j) is 2/(N(N-1)) times the defining double sum ET(i,j,N)
+  # (each (i,j) is visited exactly once by the two enclosing counting loops; the frame of the other elements is not
+  # stated for the flat array - quantified flat indices a*N+b are nonlinear)
+  asserts={"store:ECFB": ["J==ET(i,j,N)", "idx0==i*N+j"]},
+  loops={"i.j.t": ["J==ET(i,j,t)"], "i.j.t.s": ["J==ES(i,j,t,s)"]},
   checks=("bounds", "overflow"), modifies=["ECFB"])
 
 # ---- Cython wrappers that hand raw data pointers to C: the call must satisfy the C contract
